@@ -4,6 +4,7 @@
 //! server address is a counting TCP forwarder in front of the real server.
 
 use crate::engine::*;
+use crate::ensure;
 use crate::lab_sock::world::*;
 use crate::lab_sock::*;
 use anytls_rs::client::SessionPoolConfig;
@@ -25,7 +26,7 @@ pub fn property() -> Property {
             "the forwarder's accept count equals the number of TLS sessions dialled; a connection counts as open until either side closed it",
             "no timers involved: histories are shorter than the 30 s check interval",
         ],
-        families: vec![(Box::new(ReuseFam), 60, 1_500)],
+        families: vec![(Box::new(ReuseFam), 60, 1_500), (Box::new(PooledFam), 5_000, 200_000)],
     }
 }
 
@@ -373,6 +374,147 @@ impl Family for ReuseFam {
         out.class_if(case.steps.windows(2).any(|w| matches!(w[0], Step::KillOne(_)) && matches!(w[1], Step::Seq)), "request-after-one-session-cut");
         out.class_if(case.steps.windows(2).any(|w| matches!(w[0], Step::Refused) && matches!(w[1], Step::Seq)), "refused-then-sequential");
         out.class_if(case.steps.iter().any(|s| matches!(s, Step::Pause(d) if *d >= 20)) && case.short_timers, "quiet-period>idle-timeout");
+        Ok(out)
+    }
+}
+
+// ------------------------------------------------------------------------------------------
+// family `pooled` (Lab-M, H3): requests against a real Client whose pool holds in-memory sessions,
+// while pool housekeeping is at work
+
+use crate::lab_mem::pipe::{Fault, PipeParams};
+use crate::lab_mem::{client_session, default_padding, link, run_virtual_io, within, ScriptPeer, WATCHDOG};
+use crate::reference::codec::{self as rc, RFrame};
+
+#[derive(Clone, Debug, Serialize, Deserialize)]
+pub struct PooledCase {
+    /// healthy sessions put into the pool first (they have the lowest sequence numbers)
+    pub healthy: u8,
+    /// sessions added after them whose transport takes this long to shut down (ms each)
+    pub slow_closers: Vec<u16>,
+    pub min_idle: u8,
+    /// how long everything sits idle before housekeeping runs, in seconds (timeout is 60 s)
+    pub idle_s: u16,
+    /// the request starts this many ms after cleanup_expired() was started
+    pub request_after_ms: u16,
+    /// further non-overlapping requests afterwards
+    pub more_requests: u8,
+}
+
+pub struct PooledFam;
+
+impl Family for PooledFam {
+    type Case = PooledCase;
+    fn name(&self) -> &'static str {
+        "pooled"
+    }
+    fn strategy(&self, _tier: Tier) -> BoxedStrategy<PooledCase> {
+        (1u8..4, proptest::collection::vec(prop_oneof![Just(10u16), Just(60), Just(400), Just(990)], 0..4), 1u8..3, prop_oneof![Just(5u16), Just(59), Just(61), Just(200)], prop_oneof![Just(0u16), Just(1), Just(40), Just(60), Just(100), Just(500), 0u16..1500], 0u8..3)
+            .prop_map(|(healthy, slow_closers, min_idle, idle_s, request_after_ms, more_requests)| PooledCase { healthy, slow_closers, min_idle, idle_s, request_after_ms, more_requests })
+            .boxed()
+    }
+    fn run(&self, case: &PooledCase, _cx: &CaseCtx) -> CaseResult {
+        let mut out = Outcome::new();
+        let c = case.clone();
+        let res: Result<bool, Fail> = run_virtual_io(async move {
+            let case = c;
+            let tls = Arc::new(tokio_rustls::TlsConnector::from(anytls_rs::util::tls::create_client_config().expect("client tls config")));
+            let name = tokio_rustls::rustls::pki_types::ServerName::try_from("localhost").unwrap();
+            // nothing listens where this client would dial: a request that is not served from the pool fails
+            let cfg = SessionPoolConfig { check_interval: Duration::from_secs(100_000), idle_timeout: Duration::from_secs(60), min_idle_sessions: case.min_idle as usize };
+            let client = Arc::new(anytls_rs::client::Client::with_pool_config("pw", "127.0.0.1:1".to_string(), name, tls, default_padding(), cfg));
+            client.stop_session_pool_cleanup().await;
+            let pool = client.verif_session_pool();
+            let syns: Arc<Mutex<Vec<(usize, u32)>>> = Default::default();
+            let mut keep = Vec::new();
+            let n_sessions = case.healthy as usize + case.slow_closers.len();
+            for i in 0..n_sessions {
+                let mut l = link(PipeParams::default(), PipeParams::default());
+                if i >= case.healthy as usize {
+                    l.c2s.arm(Fault::ShutdownDelay { ms: case.slow_closers[i - case.healthy as usize] as u64 });
+                }
+                let sess = client_session(&mut l, default_padding(), None);
+                sess.set_seq(pool.next_seq());
+                within(WATCHDOG, sess.clone().start_client()).await;
+                // a scripted server that accepts every stream
+                let ScriptPeer { mut r, mut w, .. } = ScriptPeer::server_side(&mut l);
+                let syns2 = syns.clone();
+                tokio::spawn(async move {
+                    let _ = w.write_all(&rc::encode(&RFrame::new(rc::SERVER_SETTINGS, 0, b"v=2".to_vec()))).await;
+                    let mut p = rc::RParser::new();
+                    let mut buf = vec![0u8; 4096];
+                    loop {
+                        match r.read(&mut buf).await {
+                            Ok(0) | Err(_) => break,
+                            Ok(k) => {
+                                for f in p.feed(&buf[..k]) {
+                                    if f.cmd == rc::SYN {
+                                        syns2.lock().unwrap().push((i, f.sid));
+                                        let _ = w.write_all(&rc::encode(&RFrame::ctl(rc::SYNACK, f.sid))).await;
+                                    }
+                                }
+                            }
+                        }
+                    }
+                });
+                pool.add_idle_session(sess.clone()).await;
+                keep.push((sess, l));
+            }
+            tokio::time::sleep(Duration::from_secs(case.idle_s as u64)).await;
+            // housekeeping and a request at the same time
+            let healthy_pooled = |keep: &Vec<(Arc<anytls_rs::session::Session>, crate::lab_mem::Link)>| keep.iter().filter(|(s, _)| !s.is_closed()).count();
+            let before = healthy_pooled(&keep);
+            let cl = client.clone();
+            let delay = case.request_after_ms as u64;
+            let both = within(WATCHDOG, async {
+                tokio::join!(pool.cleanup_expired(), async {
+                    tokio::time::sleep(Duration::from_millis(delay)).await;
+                    cl.create_proxy_stream(("pooled.test".to_string(), 80)).await.map(|(st, _s)| st.id()).map_err(|e| e.to_string())
+                })
+            })
+            .await;
+            let Some(((), r)) = both else {
+                return Err(Fail::plain("C13.serve", "cleanup_expired / create_proxy_stream did not return when run at the same time"));
+            };
+            // the reaper keeps min_idle sessions whatever their age; the healthy ones come first in its order
+            let must_survive = (case.min_idle as usize).min(before);
+            let survivors = healthy_pooled(&keep);
+            let mut raced = false;
+            if must_survive >= 1 {
+                raced = true;
+                if let Err(e) = &r {
+                    return Err(Fail::new(
+                        "C13.reuse",
+                        "C13.reuse:pooled-session-not-used",
+                        format!(
+                            "a request made {} ms into cleanup_expired() was not served although the pool held {before} healthy sessions and keeps at least {must_survive} ({survivors} still open afterwards): {e} - it went for a new connection instead of waiting for the pool",
+                            case.request_after_ms
+                        ),
+                    ));
+                }
+                ensure!(syns.lock().unwrap().len() == 1, "C13.reuse", "the request was reported served but {} streams were opened on the pooled sessions", syns.lock().unwrap().len());
+            }
+            // later, non-overlapping requests: as long as a pooled session is left, it is used
+            for k in 0..case.more_requests {
+                let pooled_now = pool.idle_count().await;
+                let live_pooled = pooled_now > 0 && healthy_pooled(&keep) > 0;
+                let r = within(WATCHDOG, client.create_proxy_stream(("pooled.test".to_string(), 81 + k as u16))).await;
+                let Some(r) = r else {
+                    return Err(Fail::plain("C13.serve", "create_proxy_stream did not return"));
+                };
+                // (which entries are pooled and which are closed is the pool's business, C12; only the clear case is judged)
+                if live_pooled && pooled_now == healthy_pooled(&keep) {
+                    if let Err(e) = r {
+                        return Err(Fail::new("C13.reuse", "C13.reuse:pooled-session-not-used", format!("request #{} after the housekeeping was not served although {pooled_now} healthy sessions are pooled: {e}", k + 2)));
+                    }
+                }
+            }
+            Ok(raced)
+        });
+        let raced = res?;
+        out.nt(raced && !case.slow_closers.is_empty());
+        out.class_if(raced, "request-during-housekeeping");
+        out.class_if(case.slow_closers.iter().any(|m| *m >= 60) && case.idle_s > 60, "housekeeping-holds-the-pool>=60ms");
         Ok(out)
     }
 }
